@@ -285,6 +285,36 @@ type (
 		Mid
 		Inner2
 	}
+	// the same JSON name under DIFFERENT Go names at different depths (Go's own shadowing does not
+	// apply): encoding/json keeps the shallowest field, wherever it is declared
+	LeafID struct {
+		ID string `json:"id"`
+	}
+	MidSerial struct {
+		LeafID
+		Serial int32 `json:"id"`
+	}
+	TopSerial struct{ MidSerial } // depth 2 (string) listed before depth 1 (int32)
+	MidWrap   struct{ LeafID }
+	Shallow   struct {
+		Code int32 `json:"id"`
+	}
+	SibDeepFirst struct { // the deeper field is met first
+		MidWrap
+		Shallow
+	}
+	SibShallowFirst struct { // the shallower field is met first
+		Shallow
+		MidWrap
+	}
+	OuterBeforeEmb struct { // an outer field declared before the embedded struct that has the same JSON name
+		B string `json:"x"`
+		InnerTagged
+	}
+	OuterAfterEmb struct {
+		InnerTagged
+		B string `json:"x"`
+	}
 )
 
 // SameNameTypes returns non-recursive types that contain, at some depth, a different type with
@@ -320,7 +350,7 @@ func Catalog() []T {
 		Inner{}, EmbVal{}, EmbPtr{}, Mid{}, Emb2{}, Emb2Ptr{}, ShadowAfter{}, ShadowBefore{}, Collide{}, CollideTagWins{}, EmbTagged{}, EmbTaggedPtr{}, EmbNamedInt{},
 		SameLevel{}, SameLevelMixed{}, EmbHidden{}, Twice{}, Ints{}, Ptrs{}, Opt{}, NamedStruct{}, &NamedStruct{}, []NamedStruct{}, map[string]NamedStruct{},
 		NamedSlice{}, NamedMap{}, NamedU8(0), NamedF32(0), MyInt(0), MyStr(""), MyBool(false), MyFloat(0), MySlice{}, MyMap{}, Described{},
-		NoFields{}, EmptyS{}, HoldsEmpty{}, SameTag{}, TopOver{}, MidOver{}, TagForms{}, ZeroArr{}, ShadowGoName{}, ShadowGoNameDash{}, DepthConflict{}, []ShadowGoName{}, []EmbVal{}, map[string]*EmbPtr{}, [2]Opt{}, struct {
+		NoFields{}, EmptyS{}, HoldsEmpty{}, SameTag{}, TopOver{}, MidOver{}, TagForms{}, ZeroArr{}, ShadowGoName{}, ShadowGoNameDash{}, DepthConflict{}, TopSerial{}, MidSerial{}, SibDeepFirst{}, SibShallowFirst{}, OuterBeforeEmb{}, OuterAfterEmb{}, []ShadowGoName{}, []EmbVal{}, map[string]*EmbPtr{}, [2]Opt{}, struct {
 			A EmbVal
 			B *ShadowAfter
 		}{},
